@@ -374,15 +374,16 @@ theorem Frame.quiet (F : Frame R) (n : Net) (op : Op)
 /-- every operation, for a relation that tolerates every node edit of the model -/
 theorem Frame.step (F : Frame R) (n : Net) (op : Op)
     (hU : ∀ j a w, R j a (a.addUser w)) (hD : ∀ y u, op = .disableUser y u → ∀ a, R y a (a.setDisabled u)) (hP : ∀ j a u p, R j a (a.setPassword u p))
-    (hL : ∀ j a l, R j a (a.setLoc l)) (hC : ∀ j a c, R j a (a.addConn c)) (hS : ∀ j a s, R j a (a.addSession s))
+    (hL : ∀ y, ((∃ u p, op = .localLogin y u p) ∨ ∃ u p k, op = .localCmd y u p k) → ∀ a l, R y a (a.setLoc l))
+    (hC : ∀ j a c, R j a (a.addConn c)) (hS : ∀ j a s, R j a (a.addSession s))
     (hE : ∀ j a k, R j a (a.localExec k)) (hX : ∀ j a cid t k, R j a (a.remoteExec cid t k)) :
     Net.Rel R n (step n op).1 := by
   cases op with
   | addUser y u p adm => exact F.toPre.addUser n y u p adm (hU y)
   | disableUser y u => exact F.toPre.disableUser n y u (hD y u rfl)
   | changePassword y u o nw => exact F.changePassword n y u o nw (fun a => hP y a u nw)
-  | localLogin y u p => simp only [Primaite.Session.step]; rw [opLocalLogin_fst]; exact F.toPre.localLogin n y u p (hL y)
-  | localCmd y u p k => exact F.toPre.localCmd n y u p k (hL y) (hC y) (fun a => hE y a k)
+  | localLogin y u p => simp only [Primaite.Session.step]; rw [opLocalLogin_fst]; exact F.toPre.localLogin n y u p (hL y (Or.inl ⟨u, p, rfl⟩))
+  | localCmd y u p k => exact F.toPre.localCmd n y u p k (hL y (Or.inr ⟨u, p, k, rfl⟩)) (hC y) (fun a => hE y a k)
   | remoteCmd x y k => exact F.remoteCmd n x y k (fun a cid t => hX y a cid t k)
   | remoteLogin x y u p => exact F.toPre.remoteLogin n x y u p (hS y) hC
   | localLogout y => exact F.quiet n _ trivial
